@@ -16,6 +16,16 @@ def run(ctx):
     quick = ctx.quick
     n = 24 if quick else 600
     scns, stats = scen.generate(ctx, None, ("MC_EKF", "MC_C02_sim.cfg"), sim_num=n, sim_depth=90)
+    if scns is not None:
+        # the everyday family: models linear in state/control with dt factors (x + v dt), several dt values per process
+        lin, st2 = scen.generate(ctx, None, ("MC_EKF", "MC_C02lin_sim.cfg"), sim_num=(16 if quick else 300), sim_depth=90)
+        if lin is None:
+            scns, stats = None, st2
+        else:
+            scns = scns + lin
+            stats["states"] += st2["states"]
+            stats["transitions"] += st2["transitions"]
+            stats["tlc_runs"] += st2["tlc_runs"]
     if scns is None:
         ctx.violation("spec-invariant", stats["tlc_violation"][:800], stats)
         return finish(ctx, LEVEL, {"states": 1, "transitions": 1, "traces_validated_against_impl": 0, "samples": [stats]}, ASSUME)
